@@ -7,20 +7,21 @@
 // accesses from different threads in any trace that respects mutex semantics".
 //
 // What "syntactically held" means here (all deliberately conservative):
-//   * `B.M.Lock()` / `B.M.RLock()` as an expression statement acquires (B, M) exclusively /
+//   - `B.M.Lock()` / `B.M.RLock()` as an expression statement acquires (B, M) exclusively /
 //     shared; `B.M.Unlock()` / `B.M.RUnlock()` releases it; `defer B.M.Unlock()` keeps it
 //     held to the end of the function.  After an if/for/switch/select the held set is the
 //     intersection of the set before it and the sets at the end of its branches.
-//   * a function literal starts with the EMPTY set (it may run on another goroutine), except
+//   - a function literal starts with the EMPTY set (it may run on another goroutine), except
 //     `defer func(){...}()`, which starts with the locks whose release is already deferred.
-//   * an unexported method of a guarded struct that is only ever called directly
+//   - an unexported method of a guarded struct that is only ever called directly
 //     (`B.m(...)`) starts with the intersection of the locks held at its call sites
 //     (a deferred call counts the locks whose release was deferred before it).
-//   * an access is "init" (object not yet shared) when its base is a variable created in the
+//   - an access is "init" (object not yet shared) when its base is a variable created in the
 //     same function (`var x T`, `x := T{}`, `x := &T{}`, `x := new(T)`), or when it sits in an
 //     unexported method all of whose call sites are init in that sense.
-//   * a lock only counts for an access when it is taken on the same base expression
+//   - a lock only counts for an access when it is taken on the same base expression
 //     (`sub.mu` guards `sub.results`, not `other.results`).
+//
 // Anything the tool cannot resolve (a selector with a guarded field's name whose receiver
 // type is unknown) is emitted as an access of struct "?" holding nothing, which makes the
 // Coq obligation fail rather than pass silently.
@@ -175,9 +176,9 @@ type pkgInfo struct {
 // summary of an unexported method: locks held on its receiver at every call site, and whether
 // every call site is an init context.
 type summary struct {
-	known bool // at least one direct call site seen
-	locks []lock // base rewritten to the callee's receiver name
-	init  bool
+	known   bool   // at least one direct call site seen
+	locks   []lock // base rewritten to the callee's receiver name
+	init    bool
 	escapes bool // referenced other than by a direct call: no assumptions
 }
 
